@@ -9,9 +9,12 @@ package main
 
 import (
 	"fmt"
+	"math/big"
+	"os"
+	"path/filepath"
 	"strings"
 
-	"github.com/google/wuffs/internal/cgen"
+	cgen "github.com/google/wuffs/lang/verifc04"
 	t "github.com/google/wuffs/lang/token"
 	"wvh/hlib"
 )
@@ -60,8 +63,8 @@ func leanCBin(id t.ID, compound bool) (string, string) {
 	if id == 0 {
 		return "none", "(no such Wuffs operator)"
 	}
-	s := cgen.VerifC04COpName(id)
-	if s == cgen.VerifC04NoSuchCOperator {
+	s := cgen.COpName(id)
+	if s == cgen.NoSuchCOperator {
 		return "none", "noSuchCOperator"
 	}
 	k := strings.TrimSpace(s)
@@ -92,7 +95,7 @@ func genTables() string {
 	tab("cAssignOf", "cOpNames[t.ID…Eq]: the C compound-assignment operator (without its `=`)", func(r wopRow) (string, string) { return leanCBin(r.assign, true) })
 	tab("cAssocOf", "cOpNames[t.IDXAssociative…]", func(r wopRow) (string, string) { return leanCBin(r.assoc, false) })
 	un := func(id t.ID) string {
-		switch strings.TrimSpace(cgen.VerifC04COpName(id)) {
+		switch strings.TrimSpace(cgen.COpName(id)) {
 		case "+":
 			return "some CUn.pos"
 		case "-":
@@ -105,7 +108,7 @@ func genTables() string {
 	fmt.Fprintf(&b, "/-- cOpNames[t.IDXUnary…] -/\ndef cUnOf : WUn → Option CUn\n  | .pos => %s\n  | .neg => %s\n  | .lnot => %s\n\n",
 		un(t.IDXUnaryPlus), un(t.IDXUnaryMinus), un(t.IDXUnaryNot))
 	ty := func(id t.ID) string {
-		switch cgen.VerifC04CTypeName(id) {
+		switch cgen.CTypeName(id) {
 		case "uint8_t":
 			return "some CTy.u8"
 		case "uint16_t":
@@ -123,4 +126,496 @@ func genTables() string {
 	return b.String()
 }
 
-func shapeCheck(r *hlib.Run, tc *toolchain) {}
+
+// ---- a small C-expression reader (for the text wuffs-c emits) -> canonical prefix form
+
+type ctok struct {
+	kind int // 0 ident, 1 number, 2 punct
+	s    string
+}
+
+func clex(src string) ([]ctok, error) {
+	var out []ctok
+	i := 0
+	for i < len(src) {
+		c := src[i]
+		switch {
+		case c == ' ' || c == '\n' || c == '\t':
+			i++
+		case c >= '0' && c <= '9':
+			j := i
+			for j < len(src) && ((src[j] >= '0' && src[j] <= '9') || src[j] == 'x' || (src[j] >= 'a' && src[j] <= 'f') || (src[j] >= 'A' && src[j] <= 'F')) {
+				j++
+			}
+			num := src[i:j]
+			for j < len(src) && (src[j] == 'u' || src[j] == 'U' || src[j] == 'l' || src[j] == 'L') {
+				j++
+			}
+			out = append(out, ctok{1, num})
+			i = j
+		case c == '_' || (c >= 'a' && c <= 'z') || (c >= 'A' && c <= 'Z'):
+			j := i
+			for j < len(src) && (src[j] == '_' || (src[j] >= 'a' && src[j] <= 'z') || (src[j] >= 'A' && src[j] <= 'Z') || (src[j] >= '0' && src[j] <= '9')) {
+				j++
+			}
+			out = append(out, ctok{0, src[i:j]})
+			i = j
+		default:
+			for _, op := range []string{"<<=", ">>=", "<<", ">>", "<=", ">=", "==", "!=", "&&", "||", "+=", "-=", "*=", "/=", "%=", "&=", "|=", "^="} {
+				if strings.HasPrefix(src[i:], op) {
+					out = append(out, ctok{2, op})
+					i += len(op)
+					goto next
+				}
+			}
+			if strings.ContainsRune("()+-*/%&|^<>!=,;~", rune(c)) {
+				out = append(out, ctok{2, string(c)})
+				i++
+			} else {
+				return nil, fmt.Errorf("unexpected character %q", c)
+			}
+		next:
+		}
+	}
+	return out, nil
+}
+
+type cparser struct {
+	toks []ctok
+	pos  int
+}
+
+var cTypeWords = map[string]bool{"uint8_t": true, "uint16_t": true, "uint32_t": true, "uint64_t": true, "bool": true, "int": true, "size_t": true}
+
+var cIdentNames = map[string]string{"a_x": "x", "a_y": "y", "a_z": "z", "a_w": "w", "v_v": "v"}
+
+func (p *cparser) peek() ctok {
+	if p.pos < len(p.toks) {
+		return p.toks[p.pos]
+	}
+	return ctok{2, "<eof>"}
+}
+func (p *cparser) next() ctok { t := p.peek(); p.pos++; return t }
+func (p *cparser) accept(s string) bool {
+	if t := p.peek(); t.kind == 2 && t.s == s {
+		p.pos++
+		return true
+	}
+	return false
+}
+
+// C binary operator precedence (higher binds tighter)
+var cPrec = map[string]int{"*": 10, "/": 10, "%": 10, "+": 9, "-": 9, "<<": 8, ">>": 8, "<": 7, "<=": 7, ">": 7, ">=": 7,
+	"==": 6, "!=": 6, "&": 5, "^": 4, "|": 3, "&&": 2, "||": 1}
+
+func (p *cparser) expr(minPrec int) (string, error) {
+	lhs, err := p.unary()
+	if err != nil {
+		return "", err
+	}
+	for {
+		t := p.peek()
+		pr, ok := cPrec[t.s]
+		if t.kind != 2 || !ok || pr < minPrec {
+			return lhs, nil
+		}
+		p.next()
+		rhs, err := p.expr(pr + 1)
+		if err != nil {
+			return "", err
+		}
+		lhs = "(" + t.s + " " + lhs + " " + rhs + ")"
+	}
+}
+
+func (p *cparser) unary() (string, error) {
+	t := p.peek()
+	if t.kind == 2 {
+		switch t.s {
+		case "!", "-", "+", "&":
+			p.next()
+			e, err := p.unary()
+			if err != nil {
+				return "", err
+			}
+			name := map[string]string{"!": "not", "-": "neg", "+": "pos", "&": "addr"}[t.s]
+			return "(" + name + " " + e + ")", nil
+		case "(":
+			// cast or parenthesised expression
+			if p.pos+2 < len(p.toks) && p.toks[p.pos+1].kind == 0 && cTypeWords[p.toks[p.pos+1].s] && p.toks[p.pos+2].s == ")" {
+				ty := p.toks[p.pos+1].s
+				p.pos += 3
+				e, err := p.unary()
+				if err != nil {
+					return "", err
+				}
+				return "(cast " + ty + " " + e + ")", nil
+			}
+			p.next()
+			var parts []string
+			for {
+				e, err := p.expr(1)
+				if err != nil {
+					return "", err
+				}
+				parts = append(parts, e)
+				if !p.accept(",") {
+					break
+				}
+			}
+			if !p.accept(")") {
+				return "", fmt.Errorf("expected ) at token %d", p.pos)
+			}
+			if len(parts) > 1 {
+				return "(comma " + strings.Join(parts, " ") + ")", nil
+			}
+			return parts[0], nil
+		}
+		return "", fmt.Errorf("unexpected %q", t.s)
+	}
+	p.next()
+	if t.kind == 1 {
+		v := new(big.Int)
+		if _, ok := v.SetString(t.s, 0); !ok {
+			return "", fmt.Errorf("bad number %q", t.s)
+		}
+		return v.String(), nil
+	}
+	name := t.s
+	if n, ok := cIdentNames[name]; ok {
+		name = n
+	}
+	if p.accept("(") { // call
+		var args []string
+		if !p.accept(")") {
+			for {
+				e, err := p.expr(1)
+				if err != nil {
+					return "", err
+				}
+				args = append(args, e)
+				if p.accept(")") {
+					break
+				}
+				if !p.accept(",") {
+					return "", fmt.Errorf("expected , or ) in call")
+				}
+			}
+		}
+		return "(call " + name + " " + strings.Join(args, " ") + ")", nil
+	}
+	return name, nil
+}
+
+// readCExpr parses a complete C expression.
+func readCExpr(src string) (string, error) {
+	toks, err := clex(src)
+	if err != nil {
+		return "", err
+	}
+	p := &cparser{toks: toks}
+	e, err := p.expr(1)
+	if err != nil {
+		return "", err
+	}
+	if p.pos != len(toks) {
+		return "", fmt.Errorf("trailing tokens after expression: %v", toks[p.pos:])
+	}
+	return e, nil
+}
+
+// readCStmt parses `lhs op= expr;` or an expression statement.
+func readCStmt(src string) (string, error) {
+	src = strings.TrimSuffix(strings.TrimSpace(src), ";")
+	toks, err := clex(src)
+	if err != nil {
+		return "", err
+	}
+	p := &cparser{toks: toks}
+	lhs, err := p.unary()
+	if err != nil {
+		return "", err
+	}
+	t := p.peek()
+	if t.kind == 2 && (t.s == "=" || (strings.HasSuffix(t.s, "=") && len(t.s) >= 2 && cPrec[strings.TrimSuffix(t.s, "=")] > 0)) {
+		p.next()
+		rhs, err := p.expr(1)
+		if err != nil {
+			return "", err
+		}
+		if p.pos != len(toks) {
+			return "", fmt.Errorf("trailing tokens")
+		}
+		return "(assign " + t.s + " " + lhs + " " + rhs + ")", nil
+	}
+	if p.pos != len(toks) {
+		return "", fmt.Errorf("not a statement form this reader knows")
+	}
+	return lhs, nil
+}
+
+// ---- probe package
+
+type probe struct {
+	name string // method name
+	src  string // method source
+	op   string // op line for the Lean driver
+	stmt bool   // extract the op-assign statement instead of the return expression
+}
+
+var probeTypes = []string{"u8", "u16", "u32", "u64"}
+
+func probeBits(ty string) int {
+	return map[string]int{"u8": 8, "u16": 16, "u32": 32, "u64": 64}[ty]
+}
+
+type binSpec struct {
+	wuffs, lean string
+	xT, yT      string // refinement suffixes for the operand types ("" = unrefined); %d = bits-1
+	lc, rc      string // constants for the c-kinds
+	boolOut     bool
+}
+
+var binSpecs = []binSpec{
+	{"+", "B+", "[..= 100]", "[..= 100]", "3", "3", false},
+	{"-", "B-", "[100 ..= 200]", "[..= 100]", "200", "3", false},
+	{"*", "B*", "[..= 15]", "[..= 15]", "3", "3", false},
+	{"/", "B/", "", "[1 ..= 200]", "200", "3", false},
+	{"%", "B%", "", "[1 ..= 200]", "200", "3", false},
+	{"<<", "B<<", "[..= 1]", "[..= 7]", "1", "3", false},
+	{">>", "B>>", "", "[..= 7]", "200", "3", false},
+	{"&", "B&", "", "", "200", "3", false},
+	{"|", "B|", "", "", "200", "3", false},
+	{"^", "B^", "", "", "200", "3", false},
+	{"~mod+", "B~mod+", "", "", "200", "3", false},
+	{"~mod-", "B~mod-", "", "", "200", "3", false},
+	{"~mod*", "B~mod*", "", "", "200", "3", false},
+	{"~mod<<", "B~mod<<", "", "[..= 7]", "200", "3", false},
+	{"~sat+", "B~sat+", "", "", "200", "3", false},
+	{"~sat-", "B~sat-", "", "", "200", "3", false},
+	{"<>", "B<>", "", "", "200", "3", true},
+	{"<", "B<", "", "", "200", "3", true},
+	{"<=", "B<=", "", "", "200", "3", true},
+	{"==", "B==", "", "", "200", "3", true},
+	{">=", "B>=", "", "", "200", "3", true},
+	{">", "B>", "", "", "200", "3", true},
+}
+
+func buildProbes() []probe {
+	var ps []probe
+	n := 0
+	name := func(prefix string) string { n++; return fmt.Sprintf("%s%d", prefix, n) }
+	for _, sp := range binSpecs {
+		for _, ty := range probeTypes {
+			T := "base." + ty
+			for _, k := range []string{"vv", "vc", "cv"} {
+				l, r := "args.x", "args.y"
+				lk, rk := "v", "v"
+				if k == "vc" {
+					r, rk = sp.rc, "c"+sp.rc
+				}
+				if k == "cv" {
+					l, lk = sp.lc, "c"+sp.lc
+					if sp.wuffs == "<<" || sp.wuffs == ">>" || sp.wuffs == "~mod<<" {
+						l = "(" + sp.lc + " as " + T + ")"
+					}
+				}
+				out := T
+				if sp.boolOut {
+					out = "base.bool"
+				}
+				nm := name("b")
+				src := fmt.Sprintf("pri func s.%s(x: %s%s, y: %s%s) %s {\n    return %s %s %s\n}\n", nm, T, sp.xT, T, sp.yT, out, l, sp.wuffs, r)
+				ps = append(ps, probe{name: nm, src: src, op: fmt.Sprintf("lower %s %s %s %s", sp.lean, ty, lk, rk)})
+			}
+		}
+	}
+	// logical operators
+	for _, lo := range [][2]string{{"and", "Band"}, {"or", "Bor"}} {
+		nm := name("b")
+		ps = append(ps, probe{name: nm, op: "lower " + lo[1] + " u8 v v",
+			src: fmt.Sprintf("pri func s.%s(x: base.bool, y: base.bool) base.bool {\n    return args.x %s args.y\n}\n", nm, lo[0])})
+	}
+	// unary
+	for _, u := range [][3]string{{"+", "U+", "base.u8"}, {"-", "U-", "base.u8[..= 0]"}} {
+		nm := name("u")
+		ps = append(ps, probe{name: nm, op: "lowerun " + u[1],
+			src: fmt.Sprintf("pri func s.%s(x: %s) base.u8 {\n    return %sargs.x\n}\n", nm, u[2], u[0])})
+	}
+	{
+		nm := name("u")
+		ps = append(ps, probe{name: nm, op: "lowerun Unot",
+			src: fmt.Sprintf("pri func s.%s(x: base.bool) base.bool {\n    return not args.x\n}\n", nm)})
+	}
+	// associative
+	for _, as := range [][3]string{{"+", "A+", "[..= 50]"}, {"*", "A*", "[..= 5]"}, {"&", "A&", ""}, {"|", "A|", ""}, {"^", "A^", ""}} {
+		for _, ty := range probeTypes {
+			for _, cnt := range []int{3, 4} {
+				T := "base." + ty + as[2]
+				nm := name("s")
+				expr := "args.x " + as[0] + " args.y " + as[0] + " args.z"
+				params := fmt.Sprintf("x: %s, y: %s, z: %s", T, T, T)
+				if cnt == 4 {
+					expr += " " + as[0] + " args.w"
+					params += ", w: " + T
+				}
+				ps = append(ps, probe{name: nm, op: fmt.Sprintf("lowerassoc %s %s %d", as[1], ty, cnt-2),
+					src: fmt.Sprintf("pri func s.%s(%s) base.%s {\n    return %s\n}\n", nm, params, ty, expr)})
+			}
+		}
+	}
+	for _, lo := range [][2]string{{"and", "Aand"}, {"or", "Aor"}} {
+		nm := name("s")
+		ps = append(ps, probe{name: nm, op: "lowerassoc " + lo[1] + " u8 1",
+			src: fmt.Sprintf("pri func s.%s(x: base.bool, y: base.bool, z: base.bool) base.bool {\n    return args.x %s args.y %s args.z\n}\n", nm, lo[0], lo[0])})
+	}
+	// as
+	for _, from := range probeTypes {
+		for _, to := range probeTypes {
+			if from == to {
+				continue
+			}
+			ref := ""
+			if probeBits(from) > probeBits(to) {
+				ref = "[..= 200]"
+			}
+			nm := name("c")
+			ps = append(ps, probe{name: nm, op: fmt.Sprintf("loweras %s %s plain", from, to),
+				src: fmt.Sprintf("pri func s.%s(x: base.%s%s) base.%s {\n    return args.x as base.%s\n}\n", nm, from, ref, to, to)})
+			if probeBits(from) > probeBits(to) {
+				full := new(big.Int).Sub(new(big.Int).Lsh(big.NewInt(1), uint(probeBits(to))), big.NewInt(1))
+				for _, m := range []string{full.String(), "127"} {
+					nm := name("c")
+					ps = append(ps, probe{name: nm, op: fmt.Sprintf("loweras %s %s maskR:%s", from, to, m),
+						src: fmt.Sprintf("pri func s.%s(x: base.%s) base.%s {\n    return (args.x & %s) as base.%s\n}\n", nm, from, to, m, to)})
+					nm = name("c")
+					ps = append(ps, probe{name: nm, op: fmt.Sprintf("loweras %s %s maskL:%s", from, to, m),
+						src: fmt.Sprintf("pri func s.%s(x: base.%s) base.%s {\n    return (%s & args.x) as base.%s\n}\n", nm, from, to, m, to)})
+				}
+			}
+		}
+	}
+	// op-assign
+	for _, sp := range binSpecs {
+		if sp.boolOut {
+			continue
+		}
+		for _, ty := range probeTypes {
+			T := "base." + ty
+			for _, k := range []string{"v", "c"} {
+				r, rk := "args.y", "v"
+				if k == "c" {
+					r, rk = sp.rc, "c"+sp.rc
+				}
+				nm := name("a")
+				src := fmt.Sprintf("pri func s.%s(x: %s%s, y: %s%s) %s {\n    var v : %s\n    v = args.x\n    v %s= %s\n    return v\n}\n",
+					nm, T, sp.xT, T, sp.yT, T, T, sp.wuffs, r)
+				ps = append(ps, probe{name: nm, src: src, stmt: true, op: fmt.Sprintf("lowerassign %s= %s %s", sp.wuffs, ty, rk)})
+			}
+		}
+	}
+	return ps
+}
+
+// cFuncBody returns the body text of the definition of function fn.
+func cFuncBody(csrc, fn string) (string, bool) {
+	key := fn + "("
+	i := 0
+	for {
+		j := strings.Index(csrc[i:], key)
+		if j < 0 {
+			return "", false
+		}
+		j += i
+		k := strings.Index(csrc[j:], ")")
+		if k < 0 {
+			return "", false
+		}
+		rest := strings.TrimLeft(csrc[j+k+1:], " \n")
+		if strings.HasPrefix(rest, "{") {
+			end := strings.Index(rest, "\n}\n")
+			if end < 0 {
+				return "", false
+			}
+			return rest[1:end], true
+		}
+		i = j + len(key)
+	}
+}
+
+func shapeCheck(r *hlib.Run, tc *toolchain) {
+	probes := buildProbes()
+	var kept []probe
+	head := "pub struct s?(\n    f : base.u8,\n)\n\n"
+	var src strings.Builder
+	src.WriteString(head)
+	for _, p := range probes {
+		if _, err := parseAndCheck("probe.wuffs", []byte(head+p.src)); err != nil {
+			r.Count("shape:probe-rejected-by-checker")
+			r.Note("shape probe rejected: " + p.op + ": " + firstLines(err.Error(), 1))
+			continue
+		}
+		kept = append(kept, p)
+		src.WriteString(p.src + "\n")
+	}
+	dir := filepath.Join(tc.dir, "probe")
+	os.MkdirAll(dir, 0o755)
+	wf := filepath.Join(dir, "probe.wuffs")
+	os.WriteFile(wf, []byte(src.String()), 0o644)
+	csrc, stderr, err := hlib.GenPkg(tc.wuffsC, "probe", wf)
+	if err != nil {
+		r.Fail("shape:cgen-error", "wuffs-c gen fails on the operator probe package: "+firstLines(string(stderr), 5), src.String())
+		return
+	}
+	for _, p := range kept {
+		body, ok := cFuncBody(string(csrc), "wuffs_probe__s__"+p.name)
+		got := ""
+		if !ok {
+			got = "no-such-function"
+		} else if !p.stmt {
+			i := strings.Index(body, "return ")
+			j := strings.LastIndex(body, ";")
+			if i < 0 || j < i {
+				got = "no-return"
+			} else if e, err := readCExpr(body[i+7 : j]); err != nil {
+				got = "unreadable: " + strings.Join(strings.Fields(body[i+7:j]), " ")
+			} else {
+				got = e
+			}
+		} else {
+			var stmts []string
+			for _, l := range strings.Split(body, "\n") {
+				l = strings.TrimSpace(l)
+				if l == "" || strings.HasPrefix(l, "#") || strings.HasPrefix(l, "return ") || l == "v_v = a_x;" ||
+					(strings.HasPrefix(l, "uint") && strings.HasSuffix(l, " v_v = 0;")) {
+					continue
+				}
+				stmts = append(stmts, l)
+			}
+			if len(stmts) != 1 {
+				got = "statements: " + strings.Join(stmts, " ")
+			} else if e, err := readCStmt(stmts[0]); err != nil {
+				got = "unreadable: " + stmts[0]
+			} else {
+				got = e
+			}
+		}
+		r.Op(p.op, got)
+		r.Count("shape:pairs")
+	}
+	// the probe package must also be accepted by the C compilers
+	os.WriteFile(filepath.Join(dir, "probe.c"), csrc, 0o644)
+	os.Symlink(tc.baseC, filepath.Join(dir, "wuffs-base.c"))
+	main := "#define WUFFS_IMPLEMENTATION\n#define WUFFS_CONFIG__MODULES\n#define WUFFS_CONFIG__MODULE__PROBE\n#include \"probe.c\"\nint main(void) { return 0; }\n"
+	os.WriteFile(filepath.Join(dir, "main.c"), []byte(main), 0o644)
+	if err := hlib.CC("gcc", "-O0", "-w", "-c", "-o", filepath.Join(dir, "probe.o"), filepath.Join(dir, "main.c")); err != nil {
+		key := "cc-reject"
+		for _, l := range strings.Split(err.Error(), "\n") {
+			if i := strings.Index(l, "error:"); i >= 0 {
+				key = "cc-reject:" + slug(l[i+6:])
+				break
+			}
+		}
+		r.Fail(key, "the C emitted for the operator probe package is rejected by gcc:\n"+firstLines(err.Error(), 10), src.String())
+	}
+}
